@@ -101,8 +101,11 @@ class Report:
         ev = {"property_id": self.prop, "tier": self.tier, "seed": self.seed, "level": self.level,
               "coverage": self.cov, "assumptions": self.assumptions,
               "wall_s": round(time.time() - self.t0, 2), "violations": violations}
-        os.makedirs(EVID, exist_ok=True)
-        with open(os.path.join(EVID, f"{self.prop}.json"), "w") as fh:
+        import re as _re
+        # growth areas (G..: behaviour no listed property names) are not registered in MANIFEST.json; their evidence is kept apart
+        evdir = EVID if _re.match(r"^C\d\d$", self.prop) else os.path.join(os.path.dirname(EVID), "evidence_extra")
+        os.makedirs(evdir, exist_ok=True)
+        with open(os.path.join(evdir, f"{self.prop}.json"), "w") as fh:
             json.dump(ev, fh, indent=1, default=str)
         log(f"[{self.prop}] tier={self.tier} wall={ev['wall_s']}s violations={violations} known={len(reproduced)}")
         return 1 if violations else 0
